@@ -130,3 +130,62 @@ def analyse(mir_text, kinds):
     return {"res": res, "kind": kinds[k] if k is not None else None,
             "top": [kinds[i] for i in sorted(ttab)], "nested": [kinds[i] for i in sorted(ntab)],
             "missing": [kinds[i] for i in sorted(ttab) if i not in ntab], "dt": time.time() - t0}
+
+
+def handled_pairs(f, nkinds):
+    """all (k0, k1) whose walk through the decision tree ends in an arm other than the catch-all"""
+    sw = {}
+    for b, (t, place) in _disc_switches(f).items():
+        sd = _side(f, place)
+        if sd is not None:
+            sw[b] = (t, sd)
+    cands = [b for b in sw if sw[b][1] == 0 and len(sw[b][0]["targets"]) >= 5]
+    if not cands:
+        raise ValueError("no first-level switch on the left operand's kind in %s" % f.name[-60:])
+    start = min(cands)
+
+    def dest(k0, k1):
+        x, hops = start, 0
+        while x in sw and hops < 40:
+            t, sd = sw[x]
+            k = k0 if sd == 0 else k1
+            x = dict(t["targets"]).get(k, t["otherwise"])
+            hops += 1
+        return x
+    from collections import Counter
+    allp = {(a, b): dest(a, b) for a in range(nkinds) for b in range(nkinds)}
+    catchall = Counter(allp.values()).most_common(1)[0][0]
+    return {p for p, d in allp.items() if d != catchall}
+
+
+def analyse_cmp(mir_text, kinds, real=("IntV", "NumV", "Rational", "BigNum", "BigRational")):
+    """`PartialOrd for SteelVal`: every ordered pair of real-number kinds has an arm of its own in `partial_cmp`
+    (the catch-all answers None = not comparable).  z3: exists a pair of real kinds that falls into the catch-all?"""
+    funcs = mir.parse(mir_text, lambda n: n.endswith("::partial_cmp"))
+    f = None
+    for key, g in funcs.items():
+        if "<impl at" in g.name and re.fullmatch(r"_1: &(?:rvals::)?SteelVal, _2: &(?:rvals::)?SteelVal", g.args_s.strip()):
+            f = g
+    if f is None:
+        raise ValueError("PartialOrd::partial_cmp for SteelVal not found in the MIR dump")
+    n = len(kinds)
+    hp = handled_pairs(f, n)
+    ridx = [kinds.index(k) for k in real]
+    tbl = "(_ bv0 8)"
+    for (a, b) in sorted(hp):
+        tbl = "(ite (and (= a (_ bv%d 8)) (= b (_ bv%d 8))) (_ bv1 8) %s)" % (a, b, tbl)
+    dom = lambda v: "(or %s)" % " ".join("(= %s (_ bv%d 8))" % (v, k) for k in ridx)
+    q = "(set-logic QF_BV)\n(declare-const a (_ BitVec 8))\n(declare-const b (_ BitVec 8))\n(assert %s)\n(assert %s)\n(assert (= %s (_ bv0 8)))\n(check-sat)\n" % (dom("a"), dom("b"), tbl)
+    t0 = time.time()
+    p = subprocess.run(["z3", "-in", "-T:30"], input=q, capture_output=True, text=True)
+    res = p.stdout.strip().split("\n")[0] if p.stdout.strip() else "error"
+    if "(error" in p.stdout or res not in ("sat", "unsat"):
+        res = "error"
+    pair = None
+    if res == "sat":
+        p = subprocess.run(["z3", "-in", "-T:30"], input=q + "(get-value (a b))\n", capture_output=True, text=True)
+        vs = re.findall(r"#x([0-9a-f]{2})", p.stdout)
+        if len(vs) >= 2:
+            pair = (kinds[int(vs[0], 16)], kinds[int(vs[1], 16)])
+    return {"res": res, "pair": pair, "handled": len(hp), "real_pairs_handled": sum(1 for a in ridx for b in ridx if (a, b) in hp),
+            "real": list(real), "dt": time.time() - t0}
